@@ -26,7 +26,7 @@ THEOREMS = ["Pfl.CFG.mem_generating_iff",
 
 def generate(rng, tier):
     while True:
-        yield {"g": G.gen_cfg(rng)}
+        yield {"g": (G.gen_cfg(rng, max_vars=5, max_prods=11) if tier == "thorough" and rng.random() < 0.25 else G.gen_cfg(rng))}
 
 
 def symset(xs):
